@@ -3,9 +3,9 @@
 Real bytes go to a real tmpfs directory (zipfile, pickle, json and pandas run against the real thing);
 the shim only decides which calls fail.  Calls outside the sandbox pass through untouched.
 """
-import os, io, builtins, errno, tempfile, time
+import os, io, builtins, errno, tempfile, time, shutil
 
-MUTATING = ("mkdir", "rename", "replace", "unlink", "rmdir", "open_w", "write", "close_w")
+MUTATING = ("mkdir", "rename", "replace", "unlink", "rmdir", "rmtree", "open_w", "write", "close_w")
 
 
 class Shim:
@@ -69,7 +69,7 @@ class Shim:
                 return "transient"
             return None
         if k == pl["at"]:
-            if pl["kind"] == "torn" and op != "write":
+            if pl["kind"] == "torn" and op not in ("write", "rmtree"):
                 kind = "fail"
             elif pl["kind"] == "close" and op != "close_w":
                 kind = "fail"
@@ -135,6 +135,32 @@ class Shim:
         os.rename = wrap2("rename", "rename")
         os.replace = wrap2("replace", "replace")
 
+        # shutil.rmtree works through directory descriptors (os.unlink(name, dir_fd=...)), which the wrappers above let
+        # through: the removal of a whole tree is one fault point of its own - fail before touching it, or (torn) after
+        # removing part of it
+        o["rmtree"] = shutil.rmtree
+
+        def my_rmtree(path, ignore_errors=False, onerror=None, **k):
+            if sh.inside(path):
+                kind = sh.point("rmtree", path)
+                if kind:
+                    if kind == "torn" and os.path.isdir(path):
+                        names = sorted(os.listdir(path))
+                        for n in names[: max(1, len(names) // 2)]:
+                            q = os.path.join(path, n)
+                            if os.path.isdir(q) and not os.path.islink(q):
+                                o["rmtree"](q, ignore_errors=True)
+                            else:
+                                try:
+                                    o["unlink"](q)
+                                except OSError:
+                                    pass
+                    if ignore_errors:
+                        return None
+                    raise sh.err("fail" if kind == "torn" else kind)
+            return o["rmtree"](path, ignore_errors=ignore_errors, onerror=onerror, **k)
+        shutil.rmtree = my_rmtree
+
         def my_open(file, mode="r", *a, **k):
             if isinstance(file, int) or not sh.inside(file):
                 return o["io_open"](file, mode, *a, **k)
@@ -172,6 +198,7 @@ class Shim:
         o = self.orig
         for n in ("mkdir", "rename", "replace", "unlink", "remove", "rmdir"):
             setattr(os, n, o[n])
+        shutil.rmtree = o["rmtree"]
         builtins.open = o["open"]
         io.open = o["io_open"]
         time.sleep = o["sleep"]
